@@ -4,6 +4,7 @@ import (
 	"fmt"
 	"io"
 	"log"
+	"net"
 	"os"
 	"path/filepath"
 	"strings"
@@ -78,6 +79,9 @@ func c06Cases(tier string, seed int64) []core.Case {
 				debugAll = true
 				defer func() { debugAll = false }()
 				return c06Mutated(ctx, server, dotu, 4, nmut/4)
+			}})
+			cases = append(cases, core.Case{ID: fmt.Sprintf("listener/%s/dotu=%v", server, dotu), Run: func(ctx *core.Ctx) core.Result {
+				return c06Listener(ctx, server, dotu)
 			}})
 			cases = append(cases, core.Case{ID: fmt.Sprintf("renegotiate/%s/dotu=%v", server, dotu), Run: func(ctx *core.Ctx) core.Result {
 				return c06Renegotiate(ctx, server, dotu)
@@ -722,5 +726,101 @@ func c06Renegotiate(ctx *core.Ctx, server string, dotu bool) core.Result {
 			h.check(what, "renegotiate")
 		}
 	}
+	return res
+}
+
+// c06Listener: the server's own accept loop (Srv.StartListener on a unix socket) under connections that are dropped
+// at once, send garbage, stop mid-frame or never say anything; a well-behaved client must be served after each.
+func c06Listener(ctx *core.Ctx, server string, dotu bool) core.Result {
+	var res core.Result
+	h := newHostile(ctx, &res, server, dotu)
+	if h == nil {
+		return res
+	}
+	defer h.done()
+	sock := filepath.Join(ctx.Scratch, fmt.Sprintf("c06-%d.sock", ctx.Index))
+	_ = os.Remove(sock)
+	l, err := net.Listen("unix", sock)
+	if err != nil {
+		res.Inconclusive = "c06: cannot listen on a unix socket: " + err.Error()
+		return res
+	}
+	defer os.Remove(sock)
+	served := make(chan error, 1)
+	go func() { served <- h.s.Srv.StartListener(l) }()
+	good := func() string {
+		c, err := net.DialTimeout("unix", sock, 5*time.Second)
+		if err != nil {
+			return "dial: " + err.Error()
+		}
+		defer c.Close()
+		_ = c.SetDeadline(time.Now().Add(W))
+		if _, err := c.Write(wire.Encode(&wire.Msg{Type: wire.Tversion, Tag: wire.NOTAG, Msize: 8192, Version: h.ver()}, dotu)); err != nil {
+			return "write: " + err.Error()
+		}
+		var buf []byte
+		tmp := make([]byte, 4096)
+		for {
+			n, err := c.Read(tmp)
+			buf = append(buf, tmp[:n]...)
+			if frames, _ := wire.Split(buf); len(frames) > 0 {
+				if m, _, derr := wire.Decode(frames[0], dotu); derr == nil && m.Type == wire.Rversion {
+					return ""
+				}
+				return "the answer to Tversion is not an Rversion"
+			}
+			if err != nil {
+				return "read: " + err.Error()
+			}
+		}
+	}
+	if e := good(); e != "" {
+		res.Inconclusive = "c06: the listener does not serve a plain client: " + e
+		return res
+	}
+	r := core.NewRand(ctx.Seed, "c06/listener/"+server)
+	kinds := []string{"drop-at-once", "garbage", "half-header", "oversize-header", "silent-then-drop", "version-then-drop", "burst-of-drops"}
+	for i := 0; i < 70 && len(res.Violations) == 0; i++ {
+		kind := kinds[i%len(kinds)]
+		what := fmt.Sprintf("%s dotu=%v listener session %s #%d", server, dotu, kind, i)
+		ctx.Note([]byte(what))
+		fmt.Fprintln(os.Stderr, "--- session:", what)
+		n := 1
+		if kind == "burst-of-drops" {
+			n = 20
+		}
+		for k := 0; k < n; k++ {
+			c, err := net.DialTimeout("unix", sock, 5*time.Second)
+			if err != nil {
+				res.Violate("C06;listener-refuses;"+server+";"+kind, "the listening server does not accept connections any more: "+err.Error(), nil)
+				break
+			}
+			switch kind {
+			case "garbage":
+				_, _ = c.Write(r.Bytes(1 + r.Intn(300)))
+			case "half-header":
+				_, _ = c.Write([]byte{19, 0, 0})
+			case "oversize-header":
+				_, _ = c.Write([]byte{0xFF, 0xFF, 0xFF, 0x7F, wire.Tversion, 0xFF, 0xFF})
+			case "silent-then-drop":
+				time.Sleep(time.Millisecond)
+			case "version-then-drop":
+				_, _ = c.Write(wire.Encode(&wire.Msg{Type: wire.Tversion, Tag: wire.NOTAG, Msize: 8192, Version: h.ver()}, dotu))
+			}
+			_ = c.Close()
+		}
+		res.Evals++
+		if e := good(); e != "" {
+			res.Violate("C06;listener-stops-serving;"+server+";"+kind, fmt.Sprintf("after %s the listening server does not serve a new client: %s", kind, e), nil)
+		}
+		select {
+		case err := <-served:
+			res.Violate("C06;listener-exited;"+server+";"+kind, fmt.Sprintf("the accept loop returned (%v) after %s", err, kind), nil)
+		default:
+		}
+		res.Sig(fmt.Sprintf("%s|%v|listener|%s", server, dotu, kind))
+	}
+	h.check("listener sessions", "listener")
+	_ = l.Close()
 	return res
 }
